@@ -383,11 +383,19 @@ def c12(tier):
                     ["ModelC12", "ModelC09"])
     run.model("MC_Doc", cfg)
     # one test per transition of the glyph tables: every modelled character with at most K neighbours
-    modelled = [45, 126, 124, 58, 33, 43, 46, 39, 44, 96, 95, 61, 47, 92, 40, 41]
+    modelled = [45, 126, 124, 58, 33, 43, 46, 39, 44, 96, 95, 61, 47, 92, 40, 41, 62, 60, 94, 118, 86, 42, 111, 79, 88]
     cfgn = write_cfg("MC_Nbhd", {"K": 1 if tier == "quick" else 2, "Centres": tla_set(modelled), "Around": tla_set(modelled)},
                      ["ModelC09", "ModelC05", "ModelC12", "Emit"])
-    resn = run.model("MC_Nbhd", cfgn, timeout=5000)
+    resn = run.model("MC_Nbhd", cfgn, timeout=10000)
     nb = replay_models(run, [resn], ["C12", "C12x", "C09", "C05s"])
+    if tier == "thorough":
+        # the Unicode glyphs as centres and as neighbours of everything (K = 1)
+        import re as _re
+        uni = [int(x) for x in _re.search(r"UnicodeChars == \{([^}]*)\}", open(os.path.join(common.SPEC, "UnicodeGlyphs.tla")).read()).group(1).split(",")]
+        cfgu = write_cfg("MC_NbhdU", {"K": 1, "Centres": tla_set(modelled + uni), "Around": tla_set(modelled + uni)},
+                         ["ModelC09", "ModelC05", "ModelC12", "Emit"])
+        resu = run.model("MC_Nbhd", cfgu, timeout=10000)
+        nb += replay_models(run, [resu], ["C12", "C12x", "C09", "C05s"])
     run.notes["neighbourhood_grids"] = nb
     run.validate()
     from . import stages
